@@ -236,8 +236,11 @@ func (x *Exec) evalSpecIndex(st *State, e *ast.IndexExpr) *Value {
 		idx := x.toIndex(st, idxV)
 		v := x.selectElem(base, x.b.Add(base.L["off"], idx), u.Elem())
 		if kindOf(u.Elem()) == kRef {
-			// references stored in memory denote allocated objects
-			x.assumeWellFormed(st, v)
+			// references stored in memory denote allocated objects (not so for a
+			// slice that is itself a quantified variable: it ranges over all values)
+			if a := base.L["arr"]; a == nil || !(a.Op == "var" && (strings.HasPrefix(a.Name, "q!") || strings.HasPrefix(a.Name, "sk!"))) {
+				x.assumeWellFormed(st, v)
+			}
 		}
 		return v
 	case *types.Array:
@@ -516,6 +519,27 @@ func (x *Exec) evalSpecCall(st *State, e *ast.CallExpr) *Value {
 		}
 		k := x.coerce(st, x.eval(st, e.Args[1]), u.Key())
 		return scalarV(boolT, x.mapHas(st, m, u, k))
+	case "mapunion", "mapinter":
+		// pointwise union / intersection of two ghost string sets (strmapof:bool)
+		av := x.eval(st, e.Args[0])
+		bv2 := x.eval(st, e.Args[1])
+		at, ok := av.T.Underlying().(*types.Array)
+		if !ok || at.Len() != strMapLen || kindOf(at.Elem()) != kBool || len(e.Args) != 2 {
+			x.fail("spec: %s needs two ghost string sets", name)
+			return x.constInt(0)
+		}
+		x.nameCount["$q"]++
+		q := x.b.Var(fmt.Sprintf("q!s!%d", x.nameCount["$q"]), StrSort)
+		na := x.b.Fresh("set."+name, av.L["arr"].Sort)
+		rd := x.b.Select(na, q)
+		var def *Term
+		if name == "mapunion" {
+			def = x.b.Or(x.b.Select(av.L["arr"], q), x.b.Select(bv2.L["arr"], q))
+		} else {
+			def = x.b.And(x.b.Select(av.L["arr"], q), x.b.Select(bv2.L["arr"], q))
+		}
+		x.assume(st, x.b.Forall([]*Term{q}, x.b.Eq(rd, def), []*Term{rd}))
+		return &Value{T: av.T, L: map[string]*Term{"arr": na}}
 	case "mapset":
 		// mapset(m, k, v): the ghost string map m with k bound to v
 		mv := x.eval(st, e.Args[0])
